@@ -5,6 +5,7 @@ import json
 import multiprocessing
 import os
 import random
+import re
 
 import bl
 import common
@@ -715,6 +716,20 @@ def c09(tier):
                 sig.update({"target": c["s"]["target"] != "none", "msg": c["s"]["msg"], "layout": c["s"]["layout"], "context": c["s"]["context"],
                             "dir": c["s"]["dir"], "kvs": ",".join(c["s"]["kvs"])})
             v.violation(sig, "C09: %s%s" % (text, ("  case %s" % json.dumps(c["s"])) if c else ""), {"case": c, "mode": mode})
+    # identifiers at the width of a signed 32-bit integer: the log crate captures `ref = N` as an unsuffixed integer literal
+    base = {"head": "bare", "target": "none", "kvs": [], "msg": "plain", "dir": "none", "trailing": "none", "layout": "space",
+            "context": "indent"}
+    few = [{"s": dict(base, kvs=kv, target=t), "mode": "structured", "outcome": "missing", "place": "after_target_before_kvs",
+            "sep": "," if kv else ";", "ref": -1} for kv in ([], ["int"]) for t in ("none", "plain")] * 2
+    problems, stats = cp.run_program(binary, few, True, lock=2147483644)
+    v.cov["traces_validated_against_impl"] += 1
+    for c in few:
+        v.evaluated(("structured-wide-id", json.dumps(c, sort_keys=True)))
+    for c, text in problems:
+        m = re.search(r"\[id (\d+)\]", text)
+        wide = bool(m) and int(m.group(1)) >= 2 ** 31
+        sig = {"check": "BehaviourPreserved", "structured": True, "what": text[:40], "id_at_least_2_31": wide}
+        v.violation(sig, "C09: %s (lock 2147483644)%s" % (text, ("  case %s" % json.dumps(c["s"])) if c else ""), {"case": c, "mode": "structured", "lock": 2147483644})
     v.cov["rule"] = ("statements sampled (seeded) from the compile-safe part of the LogStmt feature space (targets, 0-2 key-values with "
                      "capture modifiers and shorthand, message classes, trailing format arguments, layouts, contexts, directives), one "
                      "function per statement in a generated crate with a capturing logger; compiled and run before and after the edit; "
